@@ -27,7 +27,7 @@ func genCase(maxOps int, crash bool) func(t *rapid.T) Case {
 			kinds = []string{"appendB", "appendB", "appendF", "appendF", "rollback", "rollbackB", "reappend", "reopen"}
 		}
 		op := rapid.Custom(func(t *rapid.T) Op {
-			o := Op{Kind: rapid.SampledFrom(kinds).Draw(t, "kind")}
+			o := Op{Kind: kit.Pick(t, "kind", kinds)}
 			switch o.Kind {
 			case "appendB", "failB", "reappend":
 				o.N = rapid.IntRange(0, 12).Draw(t, "n")
